@@ -25,8 +25,11 @@ Positions == {1, 2, 5}
 (* targets: node ids; 0 = the directory above the search root; -1 = dangling; 100 + j = link j (chains, mutual pairs) *)
 Targets == {0, 1, 2, 4, 5, 7, 9, 3, 8, -1}
 Init == links = <<>> /\ spell = "" /\ dfs = FALSE /\ win = "" /\ two = FALSE /\ phase = "links"
-AddLink == /\ phase = "links" /\ Len(links) < MaxLinks
-           /\ \E at \in Positions, to \in Targets \cup (IF Len(links) = 1 THEN {NS + 1} ELSE {}), st \in {"abs", "rel"} :
+AddLink == /\ phase = "links" /\ Len(links) < MaxLinks /\ Len(links) < 2
+           \* (a second link may sit in the outside tree when the first one leads there: a link reached through a link, whose
+           \*  relative target is relative to the real directory it is in, not to the path it was reached by)
+           /\ \E at \in Positions \cup (IF Len(links) = 1 /\ links[1].to \in {7, 9} THEN {7, 9} ELSE {}),
+                 to \in Targets \cup (IF Len(links) = 1 THEN {NS + 1} ELSE {}), st \in {"abs", "rel"} :
                 links' = Append(links, [at |-> at, to |-> to, style |-> st])
            /\ UNCHANGED <<spell, dfs, win, two, phase>>
 (* a first link pointing at the second one (chain / mutual pair) *)
@@ -38,12 +41,18 @@ AddPair == /\ phase = "links" /\ links = <<>> /\ MaxLinks >= 2
 (* win: a depth window that excludes no level (one link only) - it must change nothing, wherever the link leads.            *)
 (* two: two roots, r/a and r/b, both with the option (links in both sub-trees): a real directory reached from both is still *)
 (* listed once per query.                                                                                                  *)
+(* three links: l1 -> l2 (a link in another directory than its target) -> od, and inside od a relative link `..`: its target *)
+(* is the parent of the real directory (out), not the parent of the path the walk came by                                  *)
+AddTriple == /\ phase = "links" /\ links = <<>> /\ MaxLinks >= 2
+             /\ \E at1 \in {2, 5}, at2 \in {1, 2}, st1 \in {"abs", "rel"} :
+                  links' = << [at |-> at1, to |-> NS + 2, style |-> st1], [at |-> at2, to |-> 9, style |-> "rel"], [at |-> 9, to |-> 7, style |-> "rel"] >>
+             /\ UNCHANGED <<spell, dfs, win, two, phase>>
 Finish == /\ phase = "links" /\ links # <<>>
           /\ spell' \in {"dot", "rel", "abs"} /\ dfs' \in BOOLEAN
           /\ win' \in (IF Len(links) = 1 THEN {"", " maxdepth 9", " mindepth 1"} ELSE {""})
           /\ two' \in (IF Len(links) = 2 /\ links[1].at = 2 /\ links[2].at = 5 /\ spell' # "dot" THEN BOOLEAN ELSE {FALSE})
           /\ phase' = "done" /\ UNCHANGED links
-Next == AddLink \/ AddPair \/ Finish
+Next == AddLink \/ AddPair \/ AddTriple \/ Finish
 Spec == Init /\ [][Next]_vars
 
 RootText == CASE spell = "dot" -> "'.'" [] spell = "rel" -> "'r'" [] spell = "abs" -> "'@N1@'"
